@@ -215,6 +215,10 @@ def c_lints(ctx, P, scope, rule="C-LINT", tus=None):
     lib_kind.shifted_index(ctx, P, scope, tus=ltus)
     lib_kind.length_guard(ctx, P, scope, tus=ltus)
     lib_kind.clear_domain(ctx, P, scope, tus=ltus)
+    from . import lib_kind2
+    lib_kind2.row_len(ctx, P, scope, tus=ltus)
+    lib_kind2.offset_diff(ctx, P, scope, tus=ltus)
+    lib_kind2.null_fill(ctx, P, scope, tus=ltus)
     lib_kind.validate_before_mutate(ctx, P, scope, tus=[k for k in ltus if k in ('tables', 'trees')])
     return n
 
